@@ -1,6 +1,7 @@
 import Bw.Pipeline
 import Bw.Walk
 import Bw.Lemmas.WalkSim
+import Bw.Lemmas.UnidiffRT
 /-! # C01 — drift detection
 
 (1) the repaired hunk walk reports every added line at its own number and every deleted line at the
@@ -246,6 +247,49 @@ theorem affects_no_colon_errs (r : Text) (h : splitOnce ':' (trim r) = none) (pr
     | ok v =>
       simp only [he]
       exact ⟨e, rfl⟩
+
+/-! ## (4b) the patch text is read back exactly -/
+open Bw.Unidiff in
+/-- **unidiff round trip**: a patch written the way git writes it (`--- a/p`, `+++ b/p`, `@@ -S,L +S,L @@ section`, body
+    lines prefixed `+` / `-` / space, lengths matching the body) is read back as exactly those files, hunks and lines,
+    each line carrying its source / target number - for any number of files and hunks, provided no body line looks like
+    a file header (`--- x` / `+++ x`: the known class D10) -/
+theorem diff_roundtrip (fs : List RFile) (hw : ∀ f ∈ fs, f.WF) (input : Text)
+    (hl : lines input = fs.flatMap renderFile) : Unidiff.parse input = .ok (fs.map fileOf) := by
+  obtain ⟨st, h1, h2⟩ := files_step fs hw {}
+  unfold Unidiff.parse
+  rw [hl, h1]
+  simp only [St.close] at h2
+  cases hc : st.current with
+  | none => simp [hc] at h2 ⊢; exact h2
+  | some f => simp [hc] at h2 ⊢; exact h2
+
+open Bw.Unidiff in
+/-- the numbering of the lines read back: added lines count up from the hunk's target start, skipping removed ones -/
+example : number 10 20 [(.ctx, "a".toList), (.rem, "b".toList), (.add, "c".toList), (.add, "d".toList)] =
+    [⟨.ctx, "a".toList, some 10, some 20⟩, ⟨.rem, "b".toList, some 11, none⟩,
+     ⟨.add, "c".toList, none, some 21⟩, ⟨.add, "d".toList, none, some 22⟩] := by decide
+
+open Bw.Unidiff in
+/-- non-vacuity: a concrete two-hunk file meets the hypotheses … -/
+example : (⟨"a/x.py".toList, "b/x.py".toList,
+    [⟨"1".toList, "2".toList, "1".toList, "2".toList, [], [(.ctx, "k".toList), (.rem, "old".toList), (.add, "new".toList)]⟩,
+     ⟨"9".toList, "0".toList, "9".toList, "1".toList, " fn".toList, [(.add, "z".toList)]⟩]⟩ : RFile).WF := by
+  refine ⟨⟨by decide, by decide⟩, ⟨by decide, by decide⟩, ?_⟩
+  intro h hh
+  simp only [List.mem_cons, List.not_mem_nil, or_false] at hh
+  rcases hh with rfl | rfl
+  · refine ⟨⟨by decide, by decide⟩, ⟨by decide, by decide⟩, ⟨by decide, by decide⟩, ⟨by decide, by decide⟩, by decide, by decide, by decide, ?_, ?_⟩
+    · intro x hx; simp at hx; rcases hx with rfl | rfl | rfl <;> decide
+    · intro x hx; simp at hx; rcases hx with rfl | rfl | rfl <;> exact ⟨by decide, by decide⟩
+  · refine ⟨⟨by decide, by decide⟩, ⟨by decide, by decide⟩, ⟨by decide, by decide⟩, ⟨by decide, by decide⟩, by decide, by decide, by decide, ?_, ?_⟩
+    · intro x hx; simp at hx; subst hx; decide
+    · intro x hx; simp at hx; subst hx; exact ⟨by decide, by decide⟩
+
+open Bw.Unidiff in
+/-- … and a removed SQL comment line does not (D10): it reads as a `--- ` file header -/
+example : ¬ Benign (.rem, "-- note".toList) := by
+  intro h; have := h.1; revert this; decide
 
 /-! ## (5) path prefix -/
 
